@@ -48,10 +48,15 @@ def harmonic_st(draw, allow_imag=True):
 
 
 @st.composite
-def qrrho_st(draw):
+def qrrho_st(draw, allow_imag=True):
     n = draw(st.integers(1, 12))
-    return {'kind': 'qrrho', 'wn': [draw(wn_st) for _ in range(n)], 'Bav': draw(logf(1e-46, 1e-43)),
-            'v0': draw(logf(20, 300)), 'alpha': draw(st.sampled_from([2, 4, 6])), 'sub': None}
+    wn = [draw(wn_st) for _ in range(n)]
+    n_imag = draw(st.sampled_from([0, 0, 0, 1, 2])) if allow_imag else 0
+    for _ in range(n_imag):
+        wn.insert(draw(st.integers(0, len(wn))), -draw(logf(10, 2000)))
+    sub = draw(st.one_of(st.none(), logf(10, 200))) if n_imag else None
+    return {'kind': 'qrrho', 'wn': wn, 'Bav': draw(logf(1e-46, 1e-43)),
+            'v0': draw(logf(20, 300)), 'alpha': draw(st.sampled_from([2, 4, 6])), 'sub': sub}
 
 
 einstein_st = st.fixed_dictionaries({'kind': st.just('einstein'), 'theta': logf(50, 2000), 'u': st.floats(-5, 5)})
@@ -82,7 +87,7 @@ def statmech_desc(draw, name=None, vib_kinds=('harmonic', 'harmonic', 'qrrho', '
         has_trans = has_rot = gas
     d['trans'] = draw(trans_st) if has_trans else None
     vk = draw(st.sampled_from(list(vib_kinds)))
-    d['vib'] = None if vk is None else draw({'harmonic': harmonic_st(allow_imag), 'qrrho': qrrho_st(),
+    d['vib'] = None if vk is None else draw({'harmonic': harmonic_st(allow_imag), 'qrrho': qrrho_st(allow_imag),
                                              'einstein': einstein_st, 'debye': debye_st}[vk])
     d['rot'] = draw(rot_st()) if has_rot else None
     d['elec'] = draw(st.one_of(st.none(), elec_st, elec_st, elec_st))
